@@ -2674,3 +2674,140 @@ func c13R18(c *Ctx, r *Report) {
 	r.Check(bad == "" && len(helpers) > 0, rule, "qbe/spill.c:spill", "successor register sets are merged with regard to loop depth", c.cpos(cf, firstLiveon),
 		bad+": a value that is live through a loop and spilled at its back edge stays in a register at the loop header — `let a: []i64 = [3]; let b: []i64 = [7]; for p in a { io::Println(p); } io::Println(len(b));` stops the compiler with `rega.c:597: Assertion x != -1 failed` (SIGABRT, no diagnostic)")
 }
+
+// ---- C03.R17: operators see through references --------------------------------------------------------------
+
+func init() {
+	lateInits = append(lateInits, func() {
+		props["C03"].Quick = append(props["C03"].Quick, c03R17)
+		props["C13"].Quick = append(props["C13"].Quick, c03R17)
+		props["C03"].Explanation += " (R17) in the BinaryExpr case of checkExpr both operand types pass through a reference-stripping function before a literal is bound to them and before one of them becomes the type of the expression: `m + 1` with m: &'i32 is an i32, not a reference the back end is asked to add."
+	})
+}
+
+func c03R17(c *Ctx, r *Report) {
+	const rule = "C03.R17"
+	r.Describe(rule, "typechecker.checkExpr, case *ast.BinaryExpr: every path to bindUntypedNumericLiteral(…) and to `resultType = <operand type>` has assigned that operand-type variable from a function that returns the Inner of a *types.ReferenceType")
+	fn := c.LookupFn(pkgTC, "checkExpr")
+	bind := c.LookupFn(pkgTC, "bindUntypedNumericLiteral")
+	if !r.Anchor(rule, fn != nil && bind != nil, "typechecker.checkExpr / bindUntypedNumericLiteral") {
+		return
+	}
+	info := fn.Info()
+	var cc *ast.CaseClause
+	ast.Inspect(fn.Decl.Body, func(x ast.Node) bool {
+		if cl, ok := x.(*ast.CaseClause); ok && cc == nil {
+			for _, t := range caseTypes(info, cl) {
+				if nt := namedOf(t); nt != nil && nt.Obj().Name() == "BinaryExpr" {
+					cc = cl
+				}
+			}
+		}
+		return true
+	})
+	if !r.Anchor(rule, cc != nil, "checkExpr: case *ast.BinaryExpr") {
+		return
+	}
+	isStripper := func(f *types.Func) bool {
+		hf := c.FnOf(f)
+		if hf == nil || hf.Decl == nil || hf.Decl.Body == nil {
+			return false
+		}
+		asserts, inner := false, false
+		ast.Inspect(hf.Decl.Body, func(x ast.Node) bool {
+			switch y := x.(type) {
+			case *ast.TypeAssertExpr:
+				if y.Type != nil && strings.HasSuffix(exprStr(y.Type), "ReferenceType") {
+					asserts = true
+				}
+			case *ast.ReturnStmt:
+				for _, e := range y.Results {
+					if sel, ok := ast.Unparen(e).(*ast.SelectorExpr); ok && sel.Sel.Name == "Inner" {
+						inner = true
+					}
+				}
+			}
+			return true
+		})
+		return asserts && inner
+	}
+	// the operand type variables
+	var vars []types.Object
+	for _, st := range cc.Body {
+		ast.Inspect(st, func(x ast.Node) bool {
+			as, ok := x.(*ast.AssignStmt)
+			if !ok || len(as.Lhs) != 1 || len(as.Rhs) != 1 || as.Tok != token.DEFINE {
+				return true
+			}
+			cl, ok := as.Rhs[0].(*ast.CallExpr)
+			if ok && isCallTo(info, cl, fn.Obj) && len(cl.Args) >= 3 {
+				s := exprStr(cl.Args[2])
+				if strings.HasSuffix(s, ".X") || strings.HasSuffix(s, ".Y") {
+					if o := objOf(info, as.Lhs[0]); o != nil {
+						dup := false
+						for _, v := range vars {
+							dup = dup || v == o
+						}
+						if !dup {
+							vars = append(vars, o)
+						}
+					}
+				}
+			}
+			return true
+		})
+	}
+	if !r.Anchor(rule, len(vars) >= 2, "checkExpr BinaryExpr: lhsType / rhsType") {
+		return
+	}
+	blk := &ast.BlockStmt{List: cc.Body, Lbrace: cc.Colon, Rbrace: cc.End()}
+	g := c.CFGOfBody(blk)
+	for _, v := range vars {
+		v := v
+		nT := 0
+		hits := mustFlow(g, FlowSpec{
+			Gate: func(n ast.Node) bool {
+				as, ok := n.(*ast.AssignStmt)
+				if !ok || len(as.Lhs) != 1 || len(as.Rhs) != 1 || objOf(info, as.Lhs[0]) != v {
+					return false
+				}
+				cl, ok := as.Rhs[0].(*ast.CallExpr)
+				if !ok {
+					return false
+				}
+				f := callee(info, cl)
+				return f != nil && isStripper(f)
+			},
+			Target: func(n ast.Node) bool {
+				hit := false
+				inspectShallow(n, func(x ast.Node) bool {
+					switch y := x.(type) {
+					case *ast.CallExpr:
+						if isCallTo(info, y, bind.Obj) {
+							for _, a := range y.Args {
+								if objOf(info, a) == v {
+									hit = true
+								}
+							}
+						}
+					case *ast.AssignStmt:
+						if len(y.Lhs) == 1 && len(y.Rhs) == 1 && exprStr(y.Lhs[0]) == "resultType" && objOf(info, y.Rhs[0]) == v {
+							hit = true
+						}
+					}
+					return true
+				})
+				if hit {
+					nT++
+				}
+				return hit
+			},
+		})
+		where := c.pos(cc.Pos())
+		if len(hits) > 0 && hits[0].Pos.IsValid() {
+			where = c.pos(hits[0].Pos)
+		}
+		r.Check(nT > 0 && len(hits) == 0, rule, fn.Name(), "operand type "+v.Name()+" is dereferenced before it types a literal or the expression", where,
+			"an operand of reference type keeps that type: the literal beside it and the whole expression become references, and `let y := m + 1;` / `m = m * m;` with m: &'i32 reach QBE as pointer arithmetic on loaded values (\"invalid type for first operand in add\")")
+	}
+}
